@@ -201,6 +201,10 @@ func randOps(rnd *rand.Rand, cat *Catalog, steps int, profile string, honest boo
 			case 3:
 				op.DD = "?"
 			}
+			if rnd.Intn(5) == 0 {
+				// stored and served under the media type it is pushed with
+				op.BMT = pick([]string{"other2", "image", "other3"})
+			}
 			if op.DD == c && op.DS == len(cat.byID[c].Data) {
 				pushedB[c] = true
 			}
